@@ -32,7 +32,14 @@ fn roundtrip<const D: usize>(id: &str, w: &mut World<D>, gp_int: bool, rng: &mut
             let l3b = dt2.as_triangulation().validate().is_ok();
             let l4a = w.dt.is_valid().is_ok();
             let l4b = dt2.is_valid().is_ok();
-            obs.push(("unchanged".into(), if v1 == v2 && l3a == l3b && l4a == l4b { "1".into() } else { format!("0 validation levels differ after round trip: {v1:?}/{l3a}/{l4a} vs {v2:?}/{l3b}/{l4b}") }));
+            // Levels 1-3 are functions of the document's content and must agree.  The Level-4 verdict
+            // of the flip-predicate verifier is recorded separately: on a state that is not a
+            // certified Delaunay triangulation (after removals / flips) it can depend on the STORAGE
+            // order of the cells (which facet handle survives the queue de-duplication, from which
+            // side a near-degenerate facet is evaluated), and storage order is not part of the document
+            obs.push(("unchanged".into(), if v1 == v2 && l3a == l3b { "1".into() } else { format!("0 validation levels differ after round trip: {v1:?}/{l3a} vs {v2:?}/{l3b}") }));
+            obs.push(("l4_pair".into(), format!("{}{}", l4a as u8, l4b as u8)));
+            if l4a && !l4b { obs.push(("l4_lost".into(), "1".into())); }
             // further insertions on both copies give the same result for points in general position
             // (integer general-position families only; new points are rejection-sampled to keep
             // exact general position, so the Delaunay triangulation is unique)
